@@ -222,12 +222,16 @@ PROPS["C14"] = {
 PROPS["C03"] = {
     # obligations are merged from the per-area modules as they are integrated (grid placement, flex freeze loop,
     # fr / distribution loops, index-checked accessors)
-    "modules": ["TaffyVerif.Props.C14", "TaffyVerif.Props.C03Grid", "TaffyVerif.Props.C03Flex"],
+    "modules": ["TaffyVerif.Props.C14", "TaffyVerif.Props.C03Grid", "TaffyVerif.Props.C03Flex", "TaffyVerif.Props.C03Tracks"],
     "theorems": ["C14.index_error_unchanged", "C14.index_error_iff", "C14.no_panic",
                  "C03Grid.search_secondary_terminates", "C03Grid.search_fixed_primary_terminates",
                  "C03Grid.search_both_terminates", "C03Grid.fuel_suffices",
                  "C03Grid.estimate_covers_definite", "C03Grid.mark_area_never_panics", "C03Grid.matrix_wellformed_invariant",
-                 "C03Flex.iteration_freezes_one", "C03Flex.iteration_freezes_all_when_zero", "C03Flex.freeze_loop_terminates"],
+                 "C03Flex.iteration_freezes_one", "C03Flex.iteration_freezes_all_when_zero", "C03Flex.freeze_loop_terminates",
+                 "C03Tracks.fr_loop_terminates", "C03Tracks.fr_iterates_decrease", "C03Tracks.fr_restart_progress",
+                 "C03Tracks.fr_divisor_positive", "C03Tracks.auto_repeat_zero_size_total", "C03Tracks.auto_repeat_divisor_positive",
+                 "C03Tracks.initialize_total", "C03Tracks.alignment_divisors_positive", "C03Tracks.distribute_progress",
+                 "C03Tracks.distribute_terminates", "C03Tracks.maximise_params_wf"],
     "harness": "C03", "driver": "C03", "monitor": False, "also_debug": True, "debug_cases": 1500,
     "rule": "supervised worker processes (ulimit -v 4 GB, 10 s per-case timeout) lay out generated trees from the property's "
             "bounded domain (all displays, signed margins/insets, grid lines −6…6 incl. 0, spans 0…4, repeat()/auto-fill/auto-fit "
@@ -621,6 +625,80 @@ PROPS["C06"] = {
     "undischarged": ['AbsBlind for block, flex and grid programs: sampled by the tree pairs only'],
 }
 
+PROPS["C09"] = {
+    "modules": ["TaffyVerif.Props.C09", "TaffyVerif.Props.C03Tracks"],
+    "theorems": [
+        "C09.tracks_alternate", "C09.gutter_is_gap", "C09.explicit_count_is_expansion",
+        "C09.fixed_track_exact", "C09.gutter_size_is_gap", "C09.distribute_keeps_track_at_limit",
+        "C09.fixed_track_exact_witness", "C09.fr_fills_partial", "C09.fr_fill_full_false",
+        "C03Tracks.fr_loop_terminates", "C03Tracks.fr_iterates_decrease", "C03Tracks.fr_restart_progress",
+        "C03Tracks.fr_divisor_positive", "C03Tracks.auto_repeat_zero_size_total",
+        "C03Tracks.auto_repeat_divisor_positive", "C03Tracks.initialize_total",
+        "C03Tracks.alignment_divisors_positive", "C03Tracks.distribute_progress", "C03Tracks.distribute_terminates",
+        "C03Tracks.maximise_params_wf",
+    ],
+    "harness": "C09", "driver": "C09", "monitor": True,
+    "rule": "function-level requests through cfg(taffy_verif) hooks: compute_explicit_grid_size_in_axis (real Style through "
+            "GridContainerStyle; templates of 0-4 entries mixing px, %, fr, auto, min/max-content, fit-content, minmax(), "
+            "repeat(0-3,[..]) incl. empty lists, one or two auto-fill/auto-fit repetitions; inner size none/0/35/../1000; "
+            "px and % gaps), initialize_grid_tracks (0-3 negative/positive implicit tracks, grid_auto_* lists of 0-3, random "
+            "occupancy for auto-fit collapsing; explicit count from the real function or free), find_size_of_fr (1-5 tracks, "
+            "factors 0,.25,.5,.625,1,2,3, colliding base sizes), maximise_tracks/stretch_auto_tracks/align_tracks, and the whole "
+            "track_sizing_algorithm on synthetic tracks with 0-3 items whose min-/max-content/minimum contributions are "
+            "pre-seeded numbers (spans 1-3, scroll containers, min/max-content/definite available space, min/max sizes); "
+            "whole layouts (grid root with 1-4 Fixed-measure leaves, explicit/auto placement, padding/border, all "
+            "justify/align-content) observed through DetailedGridInfo: `obs` lines for the monitor plus, for every axis with a "
+            "definite container size, a derived `sizing` request whose expected answer is the layout's own track/gutter sizes. "
+            "Fixed cases first: the auto-repeat count witness (fix 0b77d7d), the 0.5fr/0.6fr underfill (known finding), the "
+            "THRESHOLD-leak witness (fix f6411f1, must be exact now), the zero-size auto-repeat witness (fix f9d2661, 101 tracks). "
+            "Non-trivial = produced at least one non-zero track / explicit track; distinct = distinct transcripts.",
+    "trusted_base": [
+        "hand-written models Model/GridTracksInit.lean (explicit_grid.rs, grid_track.rs, style/grid.rs predicates) and "
+        "Model/FrSize.lean (track_sizing.rs: initialize_track_sizes, resolve_intrinsic_track_sizes incl. batching, "
+        "distribute_* , flush_*, maximise_tracks, expand_flexible_tracks, find_size_of_fr, stretch_auto_tracks), tied by "
+        "bit-exact Float32 comparison of every answer",
+        "the items' min-/max-content/minimum contributions are oracle parameters of the model; whole layouts use "
+        "Fixed-measure leaves whose contributions the harness computes (replicating GridItem::minimum_contribution)",
+        "theorems of part 1 hold for every Num instance; theorems of part 2 are over exact rationals (no theorem relates "
+        "f32 rounding to them); Lean Float32 arithmetic, floor/ceil and the saturating u16 cast are assumed IEEE/Rust-like",
+    ],
+    "assumptions": [
+        "calc() lengths, baseline shims (resolve_item_baselines), the other-axis size estimate and the re-run conditions of "
+        "mod.rs are outside the model; align_tracks is modelled (Model/Alignment.lean) and tied at function level only",
+        "items have zero margins in function-level sizing runs (expand_flexible_tracks reads the margin-free cached "
+        "max-content contribution)",
+        "`x as u16` truncation of list lengths is exact (fewer than 65536 template entries / repeated tracks)",
+        "the fill clause is evaluated on the implementation with tolerance 2^-21·(n+8)·extent (n tracks; f32 additions "
+        "accumulate rounding), everything else exactly",
+    ],
+    "undischarged": [
+        "fixed_track_exact is end-to-end for the modelled track_sizing_algorithm (every oracle) for length-valued min = max; "
+        "percentage tracks/gaps (re-resolved in mod.rs step 7) are outside it",
+        "distribute_terminates is proved for closures with non-negative proportions that do not read "
+        "item_incurred_increase; the flex-factor variant therefore assumes non-negative fr values; the item batcher's fuel "
+        "(#items + 1, one batch consumes at least one item) is not a theorem",
+        "u16 overflow of the explicit track count for more than 65535 tracks (huge containers) remains a debug-build panic "
+        "(model outcome `overflow`); the generators stay below it",
+    ],
+    "level_text": "Track initialisation is proved for every template, gap, auto-track list and occupancy predicate and every Num "
+                  "instance: the vector is gutter,track,…,gutter of odd length with collapsed zero outer gutters, inner gutters carry "
+                  "the gap (or are the collapsed gutter of a collapsed auto-fit track), and the number of explicit tracks emitted "
+                  "equals the count compute_explicit_grid_size_in_axis returns (incl. repeat(n,[…]) beside one auto-repeat). "
+                  "Over exact rationals: find_size_of_fr terminates within #tracks+1 iterations through its validity test, the "
+                  "iterates decrease, distribute_space_up_to_limits terminates within #tracks+1 iterations (each iteration uses the "
+                  "space up or retires the arg-min track), a track or gutter with min = max = the same length ends with exactly "
+                  "that size after the whole track_sizing_algorithm for every oracle (fixed_track_exact, end to end since fix f6411f1), and when the tracks still flexible in the last iteration have factor sum ≥ 1 the expanded "
+                  "tracks fill the definite space. The full fill clause is refuted on a model witness that is replayed on the "
+                  "implementation (known finding); the two defects found here (THRESHOLD leak, zero-size auto-repeat) are fixed and "
+                  "their witnesses are fixed cases. The model is tied to the code by bit-exact comparison at function level and on whole layouts.",
+    "level_note": "partial: the fill clause only under the stated hypothesis (fr underfill is a known finding); intrinsic sizing is "
+                  "modelled and tied but has no theorems besides fixed_track_exact and termination; align_tracks is modelled and tied but carries no C09 theorem. Trusted: Lean kernel; hand-written models "
+                  "(validated by the correspondence run, Float32 bit-exact); Lean Float32 = IEEE binary32. Axioms: propext, "
+                  "Classical.choice, Quot.sound.",
+    "technique": "Lean 4 theorems (induction over templates/track lists, monotone-iterate termination argument, kernel-evaluated "
+                 "witnesses) about a hand-written model + differential correspondence through cfg-guarded hooks and DetailedGridInfo",
+}
+
 HOOK_COMMITS = [
     "5207efe",
     "79decb2",
@@ -632,5 +710,5 @@ HOOK_COMMITS = [
 
 _pending = "check not built yet in this revision of /verif (planned, see DESIGN.md §8)"
 NOT_APPLICABLE = {p: _pending for p in
-                  ["C01", "C04", "C09", "C12", "C16", "C17"]}
+                  ["C01", "C04", "C12", "C16", "C17"]}
 
